@@ -44,7 +44,9 @@ pub fn run_case(env: &Env, ctx: &mut Ctx, idx: u64) {
     } else {
         let n = rng.range(2, 6);
         let prog = gen_pp::single_file(&mut rng, o, n);
-        let rendered = gen_pp::render(&prog, &mut rng);
+        // now and then comments are the only separators between items
+        let comment_seps = rng.chance(1, 3);
+        let rendered = gen_pp::render_opt(&prog, &mut rng, comment_seps);
         let cfg = Setup::cfg_with_predefs(&prog, Cfg { strip_comments: rng.chance(1, 4), ..Cfg::default() });
         Setup { prog, rendered, dir: None, cfg, top: 0 }
     };
@@ -190,6 +192,17 @@ fn check_program(ctx: &mut Ctx, setup: &Setup, rng: &mut Rng) {
             }
         }
     }
+    // the white space that directly follows the last token of such a segment is part of the usage's text and comes
+    // along with it (the walk emits it once more, with its origin, afterwards)
+    for (t, pv) in otoks.iter().zip(exp.prov.iter()) {
+        if let Prov::Synth(Some(_)) = pv {
+            let mut p = t.e;
+            while p < text.len() && class[p] == Class::Gap && origin(p).is_none() {
+                class[p] = Class::SynthGap;
+                p += 1;
+            }
+        }
+    }
     // B. no other byte lacks an origin: white space and comments were copied from some file
     for p in 0..text.len() {
         if class[p] == Class::Gap || class[p] == Class::ExpGap {
@@ -206,32 +219,51 @@ fn check_program(ctx: &mut Ctx, setup: &Setup, rng: &mut Rng) {
             }
         }
     }
-    // B'. a copied byte is the byte at its origin: every byte outside expansions and synthesised text equals the
-    // source byte that origin() names.  (With strip_comments a block comment leaves one blank, which is
-    // attributed to the comment's first byte.)
-    for p in 0..text.len() {
-        if class[p] != Class::Gap && class[p] != Class::Src {
-            continue;
-        }
-        if let Some((pb, o)) = origin(p) {
-            if let Some(fi) = paths.iter().position(|x| *x == pb) {
-                let src = setup.rendered.files[fi].1.as_bytes();
+    // B'. white space and comments between two tokens that were copied from adjacent places of one file, with no
+    // directive or usage between them in the source, were copied from exactly that stretch of the file: every such
+    // output byte has an origin inside the stretch and equals the source byte the origin names.  (With
+    // strip_comments a block comment leaves one blank, attributed to the comment's first byte.)  Stretches that
+    // hold a backtick are left to rule B: an expansion may have contributed white space there, and expansions
+    // are attributed to the definition's body as a whole.
+    for (w, pv) in otoks.windows(2).zip(exp.prov.windows(2)) {
+        if let ([ta, tb], [Prov::Src { file: fa, off: oa }, Prov::Src { file: fb, off: ob }]) = (w, pv) {
+            let a = oa + (ta.e - ta.s);
+            let bsrc = *ob;
+            if fa != fb || a > bsrc {
+                continue;
+            }
+            let src = setup.rendered.files[*fa].1.as_bytes();
+            if bsrc > src.len() {
+                continue;
+            }
+            // anything but white space and comments in the stretch (a directive, a usage)?  A backtick inside a comment does not count.
+            let stretch = &setup.rendered.files[*fa].1[a..bsrc];
+            let (st, fault) = lexer::lex(stretch);
+            if fault.is_some() || st.iter().any(|t| !lexer::is_trivia(t.k)) {
+                continue;
+            }
+            for p in ta.e..tb.s {
                 let out = text.as_bytes()[p];
-                let same = src.get(o) == Some(&out);
-                let stripped_block = setup.cfg.strip_comments && out == b' ' && src.get(o) == Some(&b'/') && src.get(o + 1) == Some(&b'*');
-                // white space / comments that come out of a macro expansion are attributed to the definition's body
-                // (not byte by byte); they are recognised by an origin inside a `define line
-                let from_body = !same && o <= src.len() && in_define_line(&setup.rendered.files[fi].1, o.min(src.len()));
                 ctx.count("origin_bytes_compared", 1);
-                if !same && !stripped_block && !from_body {
+                let ok = match origin(p) {
+                    Some((pb, o)) => {
+                        pb == paths[*fa]
+                            && o >= a
+                            && o < bsrc
+                            && (src[o] == out || (setup.cfg.strip_comments && out == b' ' && src[o] == b'/' && src.get(o + 1) == Some(&b'*')))
+                    }
+                    None => false,
+                };
+                if !ok {
                     let m = format!(
-                        "byte {} of output is {:?} but origin() names {}:{}, which holds {:?} (context {:?})",
+                        "byte {} of output ({:?}) lies between two tokens copied from {}:{}..{} with only white space / comments between them, but origin() = {:?} (source stretch {:?})",
                         p,
                         out as char,
-                        pb.display(),
-                        o,
-                        src.get(o).map(|c| *c as char),
-                        clip(&text[floor_cb(&text, p.saturating_sub(12))..ceil_cb(&text, (p + 12).min(text.len()))], 40)
+                        paths[*fa].display(),
+                        a,
+                        bsrc,
+                        origin(p),
+                        clip(&String::from_utf8_lossy(&src[a..bsrc]), 60)
                     );
                     ctx.violation("origin-byte-differs", "", &m, witness(&m));
                     return;
